@@ -156,6 +156,20 @@ fn run_sched(args: &[String]) -> i32 {
             }
         }
     }
+    // options given through `Cucumber::with_cli()` survive the Cucumber-level builder methods
+    if si == 1 % sn {
+        for (p, key, msg) in vcore::order::run_children() {
+            extras += 1;
+            if p == prop {
+                violations.push(json!({
+                    "property": prop, "family": "cucumber-order", "index": 0, "tier": tier_s,
+                    "extra": "cucumber-order", "schedule": [], "key": key, "message": msg,
+                    "finding": serde_json::Value::Null, "deterministic": true,
+                }));
+            }
+        }
+        extras += vcore::order::METHODS.len();
+    }
     stats.execs += extras;
 
     let res = json!({
@@ -437,6 +451,13 @@ fn run_replay(args: &[String]) -> i32 {
     if engine != "sched" {
         return vcore::hist::replay(&j);
     }
+    if j["extra"].as_str() == Some("cucumber-order") {
+        let vs = vcore::order::run_children();
+        for (p, k, m) in &vs {
+            println!("violation {p} [{k}]: {m}");
+        }
+        return i32::from(!vs.is_empty());
+    }
     if j["extra"].as_str() == Some("c10-macro-errors") {
         let vs = vcore::zoo::c10_macro_errors();
         for (k, m) in &vs {
@@ -476,6 +497,10 @@ fn run_replay(args: &[String]) -> i32 {
 }
 
 fn main() {
+    if let Ok(spec) = std::env::var("VERIF_ORDER_CHILD") {
+        std::panic::set_hook(Box::new(|_| {}));
+        std::process::exit(vcore::order::child(&spec));
+    }
     if let Ok(spec) = std::env::var("VERIF_C15_ORDER") {
         std::process::exit(vcore::h_filter::order_child(&spec));
     }
